@@ -558,6 +558,9 @@ func (s *Server) receiveMessage(m Message) error {
 		}
 	case *CreateIndexMessage:
 		opt := obj.Meta
+		if opt == nil {
+			return fmt.Errorf("create index message without options: %s", obj.Index)
+		}
 		_, err := s.holder.CreateIndex(obj.Index, *opt)
 		if err != nil {
 			return err
@@ -572,17 +575,26 @@ func (s *Server) receiveMessage(m Message) error {
 			return fmt.Errorf("local index not found: %s", obj.Index)
 		}
 		opt := obj.Meta
+		if opt == nil {
+			return fmt.Errorf("create field message without options: %s/%s", obj.Index, obj.Field)
+		}
 		_, err := idx.createField(obj.Field, *opt)
 		if err != nil {
 			return err
 		}
 	case *DeleteFieldMessage:
 		idx := s.holder.Index(obj.Index)
+		if idx == nil {
+			return fmt.Errorf("local index not found: %s", obj.Index)
+		}
 		if err := idx.DeleteField(obj.Field); err != nil {
 			return err
 		}
 	case *DeleteAvailableShardMessage:
 		f := s.holder.Field(obj.Index, obj.Field)
+		if f == nil {
+			return fmt.Errorf("local field not found: %s/%s", obj.Index, obj.Field)
+		}
 		if err := f.RemoveAvailableShard(obj.ShardID); err != nil {
 			return err
 		}
